@@ -843,9 +843,9 @@ func (s *session) readDisconnected(oldConn net.Conn, err error) {
 			Debugf("disconnect(%s) when reading: %T %s", s.RemoteAddr().String(), err, errStr)
 		}
 	}
-	s.graceCtxWait()
-
-	// cancel the callCmd that is waiting for a reply
+	// cancel the callCmd that is waiting for a reply; this comes before waiting
+	// for the running handlers, because a handler may itself be waiting for a
+	// call it issued over this session
 	s.callCmdMap.Range(func(_, v interface{}) bool {
 		callCmd := v.(*callCmd)
 		callCmd.mu.Lock()
@@ -855,6 +855,8 @@ func (s *session) readDisconnected(oldConn net.Conn, err error) {
 		callCmd.mu.Unlock()
 		return true
 	})
+
+	s.graceCtxWait()
 
 	if status == statusActiveClosing {
 		return
